@@ -1111,6 +1111,14 @@ class Emitter:
         h = getattr(self.cfg, "seq_handlers", {}).get(base)
         if h:
             return h(self, seq, targs)
+        # a sugared spelling (auto x = std::move(container)): decide by the mapped C type
+        try:
+            ct = self.ctype(t)
+        except ExtractionError:
+            return None
+        h = getattr(self.cfg, "seq_handlers", {}).get(ct.base)
+        if h:
+            return h(self, seq, targs)
         return None
 
     # ------------------------------------------------------------------ expressions
